@@ -8,7 +8,7 @@
 (* Every resolution schedule and (optionally) every module-addition order  *)
 (* is explored.                                                            *)
 (***************************************************************************)
-EXTENDS Pyxis, Props, Json
+EXTENDS Det, Props, Json
 
 CONSTANTS N,          \* number of types
           Kinds,      \* field kinds used
@@ -81,60 +81,7 @@ MCInit ==
 
 MCSpec == MCInit /\ [][Next]_vars /\ WF_vars(Next)
 
-(* --------------------- deterministic reference run --------------------- *)
-(* The same machine, stepped with one fixed choice (CHOOSE) wherever the   *)
-(* real one is free.  C09 says every behaviour ends like this one.         *)
-RECURSIVE DetAdd(_, _)
-DetAdd(st, mi) ==
-  IF mi > Len(input.mods) THEN st
-  ELSE LET m == input.mods[mi]
-           e == AddModuleError(m)
-           paths == {Join(m.path, m.defs[i].name) : i \in DOMAIN m.defs}
-                      \cup {Join(m.path, m.exts[i].name) : i \in DOMAIN m.exts}
-       IN IF e # "" THEN [st EXCEPT !.phase = "failed", !.err = e]
-          ELSE DetAdd([st EXCEPT
-                 !.mods = [q \in (DOMAIN st.mods) \cup {m.path} |->
-                             IF q = m.path THEN [mi |-> mi, defs |-> paths] ELSE st.mods[q]],
-                 !.reg = PutExts(PutDefs(st.reg, mi, m, 1, Len(m.defs)), mi, m, 1, Len(m.exts))],
-                 mi + 1)
-
-RECURSIVE DetPass(_, _)
-DetPass(st, todo_) ==
-  IF todo_ = {} \/ st.phase = "failed" THEN st
-  ELSE LET p == CHOOSE q \in todo_ : TRUE
-           item == st.reg[p]
-           m == input.mods[st.mods[Parent(p)].mi]
-           d == input.mods[item.src[1]].defs[item.src[2]]
-           a == Attempt(st.reg, input.ptr, m, item.src, p, d)
-           reg1 == ApplyIns(st.reg, a.ins)
-           st1 == IF item.st = "R" THEN st
-                  ELSE [st EXCEPT !.mods = NoteDefs(st.mods, a.ins),
-                                  !.reg = IF a.r = "ok" THEN [reg1 EXCEPT ![p] = [@ EXCEPT !.st = "R", !.res = a.res]]
-                                          ELSE reg1,
-                                  !.phase = IF a.r = "fail" THEN "failed" ELSE @,
-                                  !.err = IF a.r = "fail" THEN a.why ELSE @]
-       IN DetPass(st1, todo_ \ {p})
-
-RECURSIVE DetBuild(_, _)
-DetBuild(st, fuel) ==
-  LET u == Unresolved(st.reg)
-  IN IF st.phase = "failed" \/ u = {} \/ fuel = 0 THEN st
-     ELSE LET st1 == DetPass(st, u)
-          IN IF st1.phase = "failed" THEN st1
-             ELSE IF Unresolved(st1.reg) = u THEN [st1 EXCEPT !.phase = "failed", !.err = "nonterm"]
-             ELSE DetBuild(st1, fuel - 1)
-
-DetRun ==
-  LET s0 == DetAdd([phase |-> "adding", err |-> "", mods |-> RootMods, reg |-> InitialReg], 1)
-      s1 == DetBuild(s0, 2 * N + 2)
-      extOk == \A q \in DOMAIN s1.mods : q # <<>> =>
-                  LET m == input.mods[s1.mods[q].mi]
-                  IN \A i \in DOMAIN m.evals : ResolveTy(s1.reg, ScopeOf(m), m.evals[i].ty) # TNone
-  IN IF s1.phase = "failed" THEN [ok |-> FALSE, out |-> {}, unres |-> Unresolved(s1.reg), err |-> s1.err]
-     ELSE IF ~extOk THEN [ok |-> FALSE, out |-> {}, unres |-> {}, err |-> "unresolved-extern-value"]
-     ELSE [ok |-> TRUE, err |-> "", unres |-> {},
-           out |-> {EmitModule(s1.reg, input.ptr, input.mods[s1.mods[q].mi], s1.mods[q].defs) :
-                      q \in (DOMAIN s1.mods) \ {<<>>}}]
+DetRun == DetRunOn(input)
 
 (* ------------------------- C10: the oracle ----------------------------- *)
 AllDefs == UNION {{<<mi, di>> : di \in DOMAIN input.mods[mi].defs} : mi \in DOMAIN input.mods}
